@@ -296,13 +296,15 @@ def small_H(eff):
     return wq, Hs
 
 
-def call_qop(case):
+def call_qop(case, reverse_time_dict=False):
     """Run the real code for a 'qop' case; returns (circuit, phase, effective ordered term list, r)."""
     from tangelo.toolboxes.ansatz_generator import ansatz_utils as AU
     terms = norm_terms(case["terms"])
     time, order, control = case["time"], case["order"], case["control"]
     op, items = build_qop(terms)
     targ = {w: t for (w, _), t in zip(terms, time)} if isinstance(time, list) else time
+    if reverse_time_dict:
+        targ = dict(reversed(list(targ.items())))
     tlist = time if isinstance(time, list) else [time] * len(terms)
     if case["fn"] == "gexp":
         perm = case.get("perm")
@@ -317,6 +319,48 @@ def call_qop(case):
         idx = list(range(len(terms)))
     eff = [(terms[i][0], terms[i][1] * tlist[i]) for i in idx]
     return circ, ph, eff, r
+
+
+def check_qop_arguments(case, acc, site, sig, first_descs, first_phase):
+    """The operator and the (per-term) time dictionary belong to the caller: unchanged after the call, and a second call with the
+    very same objects returns the same circuit and phase."""
+    from tangelo.toolboxes.ansatz_generator import ansatz_utils as AU
+    import copy
+    terms = norm_terms(case["terms"])
+    time, order, control = case["time"], case["order"], case["control"]
+    op, items = build_qop(terms)
+    targ = {w: t for (w, _), t in zip(terms, time)} if isinstance(time, list) else time
+    snap_op, snap_t = copy.deepcopy(dict(op.terms)), copy.deepcopy(targ)
+    po = None
+    if case["fn"] == "gexp" and case.get("perm") is not None:
+        po = [items[i] for i in case["perm"]]
+    snap_po = copy.deepcopy(po)
+    outs = []
+    acc.ev()
+    for rep in range(2):
+        try:
+            if case["fn"] == "gexp":
+                circ, ph = AU.get_exponentiated_qubit_operator_circuit(op, time=targ, trotter_order=order, control=control,
+                                                                       return_phase=True, pauli_order=po)
+            else:
+                circ, ph = AU.trotterize(op, time=targ, n_trotter_steps=case["steps"], trotter_order=order, control=control,
+                                         return_phase=True)
+        except Exception as e:
+            acc.violation(f"{site}/repeated-call-raises/{sig}", case, {"err": repr(e)[:200], "call": rep + 1, "repro": repro(case)},
+                          group=f"{site}/repeated-call")
+            return
+        outs.append((descs_of(circ._gates), ph))
+        if dict(op.terms) != snap_op or targ != snap_t or po != snap_po:
+            what = "operator" if dict(op.terms) != snap_op else "time" if targ != snap_t else "pauli_order"
+            acc.violation(f"{site}/argument-modified/{what}/{sig}", case, {"after": repr(targ)[:200], "before": repr(snap_t)[:200],
+                                                                          "call": rep + 1, "repro": repro(case)},
+                          group=f"{site}/argument-modified/{what}")
+            return
+    for d, ph in outs:
+        if d != first_descs or abs(ph - first_phase) > 1e-12:
+            acc.violation(f"{site}/repeated-call-with-the-same-arguments-differs/{sig}", case, {"repro": repro(case)},
+                          group=f"{site}/repeated-call")
+            return
 
 
 def qop_site(case):
@@ -342,6 +386,20 @@ def eval_qop(case, acc, want_dist=False):
     except Exception as e:
         raised(acc, site, case, sig, e)
         return None
+    check_qop_arguments(case, acc, site, sig, descs_of(circ._gates), ph)
+    if isinstance(case["time"], list) and len(set(map(repr, case["time"]))) > 1:
+        # a per-term time dictionary is keyed by term: its insertion order must be immaterial
+        acc.ev()
+        try:
+            circ2, ph2, _, _ = call_qop(case, reverse_time_dict=True)
+            same = descs_of(circ2._gates) == descs_of(circ._gates) and abs(ph2 - ph) < 1e-12
+        except RuntimeError:
+            raise
+        except Exception as e:
+            same = False
+        if not same:
+            acc.violation(f"{site}/result-depends-on-insertion-order-of-time-dict/{sig}", case, {"repro": repro(case)},
+                          group=f"{site}/time-dict-order")
     order = case["order"]
     wq, Hs = small_H(eff)
     commuting = TR.all_commute([w for w, _ in eff])
@@ -438,7 +496,7 @@ def ferm_inputs(case):
     return out
 
 
-def call_ferm(case):
+def call_ferm(case, reverse_time_dict=False):
     from tangelo.toolboxes.ansatz_generator import ansatz_utils as AU
     from tangelo.toolboxes.operators import FermionOperator
     lads = ferm_inputs(case)
@@ -446,7 +504,7 @@ def call_ferm(case):
     for lad, c, _ in lads:
         fop += FermionOperator(lad, c)
     if case["tdict"]:
-        time = {lad: t for lad, _, t in lads}
+        time = {lad: t for lad, _, t in (lads[::-1] if reverse_time_dict else lads)}
     else:
         time = lads[0][2]
     opts = {"qubit_mapping": case["mapping"], "up_then_down": case["utd"], "n_spinorbitals": N_SO, "n_electrons": 2}
@@ -498,6 +556,15 @@ def eval_ferm(case, acc):
     except Exception as e:
         raised(acc, site, case, sig, e)
         return
+    if case["tdict"] and len(case["gens"]) > 1:
+        acc.ev()
+        try:
+            circ2, ph2 = call_ferm(case, reverse_time_dict=True)
+            same = descs_of(circ2._gates) == descs_of(circ._gates) and abs(ph2 - ph) < 1e-12
+        except Exception:
+            same = False
+        if not same:
+            acc.violation(f"{site}/result-depends-on-insertion-order-of-time-dict/{sig}", case, {}, group=f"{site}/time-dict-order")
     qterms, Hq, Hf, nq = ferm_reference(case)
     if Hf is not None:
         acc.ev()
@@ -556,6 +623,44 @@ def eval_tsu(case, acc):
                 lambda: bound_ordered(eff, wq, order, r), case["control"], slack=drop_slack(eff, order), up_to_phase=left_out)
     if res and res[1]:
         acc.nt((site, tuple(eff), order, case["n_trotter"], case["n_steps"], method, repr(case["control"])))
+
+
+TSUH_OPS = [[[((0, "X"),), 0.7], [(), -0.45]],
+            [[((0, "Z"), (1, "X")), 0.7], [((0, "X"),), -0.45]],
+            [[((0, "Y"), (1, "Y")), -0.45], [((1, "Z"),), 0.7], [(), 0.7]]]
+TSUH_MENU = [(ns, ctl, meth) for ns in (1, 2) for ctl in (None, 2, [2, 3], 3) for meth in ("", "time", "repeat")]
+
+
+def eval_tsuh(case, acc):
+    """E2-style: ONE TrotterSuzukiUnitary object answers a sequence of build_circuit calls (n_steps, control, method); every
+    answer must be the circuit a fresh object returns for that call alone (no memory of earlier calls)."""
+    from tangelo.toolboxes.unitary_generator.trotter_suzuki import TrotterSuzukiUnitary
+    site = "TrotterSuzukiUnitary.build_circuit(history)"
+    terms = norm_terms(case["terms"])
+
+    def mk():
+        op, _ = build_qop(terms)
+        return TrotterSuzukiUnitary(op, time=case["time"], trotter_order=case["order"], n_trotter_steps=case["n_trotter"],
+                                    n_steps_method=case["ctor_method"])
+    acc.states += 1
+    try:
+        shared = mk()
+        for step, idx in enumerate(case["history"]):
+            ns, ctl, meth = TSUH_MENU[idx]
+            acc.transitions += 1
+            acc.ev()
+            got = descs_of(shared.build_circuit(ns, control=ctl, method=meth)._gates)
+            want = descs_of(mk().build_circuit(ns, control=ctl, method=meth)._gates)
+            if got != want:
+                acc.violation(f"{site}/answer-depends-on-earlier-calls/order{case['order']}/{case['ctor_method']}", case,
+                              {"step": step, "call": [ns, ctl, meth], "n_gates_got": len(got), "n_gates_fresh": len(want)},
+                              group=f"{site}/answer-depends-on-earlier-calls")
+                return
+    except Exception as e:
+        raised(acc, site, case, f"order{case['order']}", e)
+        return
+    if len(case["history"]) > 1:
+        acc.nt((site, repr(terms), case["order"], case["ctor_method"], tuple(case["history"])))
 
 
 # ---------------------------------------------------------------------------------------------------------------------
@@ -681,12 +786,28 @@ def skeletons(tier, sec):
 
 ALPHA = {"W2": (W2, 2), "W3": (W3, 3), "W2Q": (W2Q, 2), "W3Q": (W3Q, 3)}
 
+def tsuh_cases(tier, part, nparts):
+    L = 2 if tier == "quick" else 3
+    i = 0
+    for oi, terms in enumerate(TSUH_OPS):
+        for order in (1, 2):
+            for ctor in ("time", "repeat"):
+                for l in range(1, L + 1):
+                    for h in itertools.product(range(len(TSUH_MENU)), repeat=l):
+                        i += 1
+                        if i % nparts == part:
+                            yield {"kind": "tsuh", "terms": terms, "time": 0.3, "order": order, "n_trotter": 1 + (oi % 2),
+                                   "ctor_method": ctor, "history": list(h)}
+
+
 N_PARTS = {"quick": {"pw": 7, "b1": 26, "b2": 40, "b2hi": 24, "b3": 24, "conv": 8, "ferm": 32, "tsu": 24},
            "thorough": {"pw": 7, "b1": 26, "b2": 96, "b2hi": 48, "b3": 160, "conv": 32, "ferm": 96, "tsu": 24}}
 
 
 def shards(tier, seed):
     sh = []
+    for i in range(16):
+        sh.append({"kind": "tsuh", "part": i, "nparts": 16, "tier": tier, "seed": seed})
     for sec in ("b3", "b2", "ferm", "b2hi", "conv", "tsu", "b1", "pw"):
         n = N_PARTS[tier][sec]
         for i in range(n):
@@ -797,11 +918,20 @@ def expand(sec, skel, tier, a):
                         yield {"kind": "qop", "fn": "gexp", "terms": terms, "time": t, "order": order, "control": ctl, "perm": perm}
 
 
-EVAL = {"pw": eval_pw, "qop": eval_qop, "conv": eval_conv, "ferm": eval_ferm, "tsu": eval_tsu}
+EVAL = {"pw": eval_pw, "qop": eval_qop, "conv": eval_conv, "ferm": eval_ferm, "tsu": eval_tsu, "tsuh": eval_tsuh}
 
 
 def run_shard(sh):
     acc = Acc()
+    if sh["kind"] == "tsuh":
+        n = 0
+        for case in tsuh_cases(sh["tier"], sh["part"], sh["nparts"]):
+            eval_tsuh(case, acc)
+            n += 1
+            if n == 5:
+                acc.sample(case, cap=1)
+        acc.count("cases_tsuh", n)
+        return acc
     a = alph(sh["seed"])
     sk = skeletons(sh["tier"], sh["kind"])
     n = 0
